@@ -61,15 +61,18 @@ RULE = ("tx: packets of 1..70 random / all-ones / stuffing-boundary bytes, tx_da
         "+-0.25%, random idle gaps -- every third case instead as a drifting CELL STREAM drawn from the envelope of the drift "
         "theorems (the Python twin `drift_ok` of the Lean predicate `driftOk`: every bit cell 3, 4 or 5 samples, two "
         "cells of length != 4 at least 8 cells apart -- 9 for the packets with a seventh 1 --, slow / fast / 3s and 5s "
-        "mixed, slips mostly as dense as allowed, from the first cell on, any number >= 20 of idle samples between "
-        "packets); delivered bytes compared with the Lean `decode`.  rxc: the cycle-level Lean model "
+        "mixed, slips mostly as dense as allowed, from the first cell on; SKEW as in the Lean predicate `SkewOk`: at "
+        "J<->K transitions the first sample of the new cell shows SE0 or SE1 -- the two lines seen switching one "
+        "sample apart, either order, per transition with probability 0 / 30 / 100 % --; any number >= 20 of idle samples "
+        "between packets); delivered bytes compared with the Lean `decode`.  rxc: the cycle-level Lean model "
         "of the receive chain (`FsRx.step`) against the real RxPipeline usb_io cycle by usb_io cycle on 21 signals (the "
         "ports of RxClockDataRecovery, RxNRZIDecoder, RxPacketDetect, RxBitstuffRemover, RxShifter, the write ports of "
         "both clock-domain-crossing FIFOs, o_receive_error); stimulus: nominal-rate packets (good / seventh 1) in all "
         "four sampling phases, mode 'envelope': the same packets as drifting cell streams from the envelope of the drift "
         "theorems (as for rx; same monitor as at nominal rate: events written into the clock-domain crossing = start, "
         "the bytes, end; no error on a good packet; error latched after a seventh 1; coverage tags env:len3, env:len5, "
-        "env:slip-in-first-cell, -in-se0, -late-in-long-run, -in-single-cell-run, env:slips-closest, env:3-and-5-mixed), "
+        "env:slip-in-first-cell, -in-se0, -late-in-long-run, -in-single-cell-run, env:slips-closest, env:3-and-5-mixed, "
+        "env:skew-se0, env:skew-se1, env:skew-at-lock, env:skew-in-3-sample-cell), "
         "the same with clock offsets up to +-10% and truncated / non-byte-multiple packets and "
         "gaps down to 0 bit times, single-cycle glitches incl. SE1, and random line states.  rxd: the same stimulus, the "
         "Lean model with the clock-domain crossing (`FsRxCdc.step phase`: both AsyncFIFOBuffered with Gray pointers, "
@@ -110,7 +113,9 @@ ASSUMPTIONS = [
     "arbitrary); rx_pipeline_decodes_encode / stuff_error_detected_cycle are about what is written into the two "
     "AsyncFIFOBuffered clock-domain crossings",
     "receive theorems under clock drift (rx_pipeline_decodes_encode_drift, stuff_error_detected_cycle_drift): the line "
-    "is a stream of bit cells of 3, 4 or 5 usb_io samples each (both lines changing in the same sample), two cells of "
+    "is a stream of bit cells of 3, 4 or 5 usb_io samples each; at a J<->K transition the two lines may be seen "
+    "switching one sample apart, in either order, independently per transition (the first sample of the new cell "
+    "shows SE0 or SE1: `SkewOk`), elsewhere every sample of a cell shows its symbol; two cells of "
     "length != 4 at least 8 cells apart (`DriftOk`; for packets that violate bit stuffing: at least longest-run + 1 "
     "cells apart, `trackable_of_drift`); a transmitter within +-0.25 % of the nominal bit rate, transitions at "
     "floor(phi + k T), produces such streams with the slips at least 100 cells apart (floor_cells_driftOk); the packet "
@@ -137,7 +142,8 @@ PARTIAL = ("Transmit direction fully in theorems over the cycle-level model that
            "(stuff_error_detected_cycle, stuff_error_seen_by_usb).  Clock drift: the receive chain up to the writes "
            "into the clock-domain crossing is proved for every drifting cell stream -- every bit cell 3, 4 or 5 samples "
            "of the 48 MHz sampler, two cells of length != 4 at least 8 cells apart (+-0.25 % has them at least 100 "
-           "apart: floor_cells_driftOk), any sampling phase, any byte list, any number of packets: start, the bytes once "
+           "apart: floor_cells_driftOk), the two lines seen switching in the same sample or one sample apart in either "
+           "order at any J<->K transition (SkewOk), any sampling phase, any byte list, any number of packets: start, the bytes once "
            "and in order, end, no error (rx_pipeline_decodes_encode_drift), and a seventh 1 latches the error "
            "(stuff_error_detected_cycle_drift); exactly one strobe of the clock recovery per bit cell on a sample of "
            "that cell (front_blocksD, track_of_drift; bit stuffing = a transition at least every 7 cells).  NOT in a "
@@ -145,8 +151,8 @@ PARTIAL = ("Transmit direction fully in theorems over the cycle-level model that
            "under drift -- rx_delivers_to_usb / stuff_error_seen_by_usb (what the 12 MHz side sees behind the two "
            "AsyncFIFOBuffered) assume exactly four samples per bit, because their FIFO-latency analysis is per bit time "
            "of four cycles with a fixed usb clock phase; under drift the writes are 3..5 cycles apart and the usb edge "
-           "moves through the bit time; jitter beyond one sample per 8 cells, and the two lines switching in different "
-           "samples (SE1/SE0 glitch at a transition); packets without any byte (SYNC directly followed by EOP) are outside "
+           "moves through the bit time; jitter beyond one sample per 8 cells, a skew between the two lines of more than one "
+           "sample, glitches inside a cell; packets without any byte (SYNC directly followed by EOP) are outside "
            "rx_delivers_to_usb (start and end flags would be in flight in the flags FIFO together).")
 
 SE0, J, K = 0, 1, 2
@@ -379,8 +385,8 @@ class LineDriver:
 
     def pre(self, k, b):
         s = self.samples[k] if k < len(self.samples) else J
-        b.set(b.io.d_p.i, 1 if s == J else 0)
-        b.set(b.io.d_n.i, 1 if s == K else 0)
+        b.set(b.io.d_p.i, 1 if s in (J, 3) else 0)      # 3 = SE1
+        b.set(b.io.d_n.i, 1 if s in (K, 3) else 0)
 
     def post(self, k, b):
         pass
@@ -542,9 +548,22 @@ def envelope_samples(rng, waves, viol):
     for w, v in zip(waves, viol):
         M = 9 if v else 8
         lens = envelope_lens(rng, len(w) - 1, M)
+        # skew (Lean `SkewOk`): at J<->K transitions the first sample of the new cell may show SE0 (the falling line was
+        # seen first) or SE1 (the rising line first), independently at every transition
+        skew = rng.weighted([(3, 0), (2, 30), (1, 100)])
         last = None
+        prev = J
         for i, (sym, n) in enumerate(zip(w[:-1], lens)):
-            out += [sym] * n
+            first = sym
+            if skew and {prev, sym} == {J, K} and rng.chance(skew):
+                first = rng.choice([SE0, 3])
+                tags.add("env:skew-se%d" % (0 if first == SE0 else 1))
+                if n == 3:
+                    tags.add("env:skew-in-3-sample-cell")
+                if i == 0:
+                    tags.add("env:skew-at-lock")
+            out += [first] + [sym] * (n - 1)
+            prev = sym
             if n != 4:
                 tags.add("env:len%d" % n)
                 if i == 0:
